@@ -32,6 +32,15 @@ Definition phi (s : State) : Z :=
   | None => 0
   end.
 
+(* the block subsidy of the current halving age: the configured reward halved once for every
+   time the remaining part of the fixed total has halved *)
+Definition halving_age (po : Pool) : Z := Z.log2 (TOTAL_REWARD / (TOTAL_REWARD - po_reward po)).
+Definition subsidy_cap (s : State) : Z :=
+  match pool s with
+  | Some po => Z.shiftr (np_reward (nparams s)) (halving_age po)
+  | None => 0
+  end.
+
 (** * C09 / C10: authorisation, stated without reference to the handlers *)
 (* key [k] is a key of DID [d]: the key a did:key names, or a key listed in a key document
    that is in the sid DID's own version history *)
